@@ -149,6 +149,21 @@ func propTrack(tr Track) error {
 	if got == nil || got.LineString == nil {
 		return fmt.Errorf("igc.Read returned nil")
 	}
+	// what Read returned is the caller's: another stream read afterwards changes nothing in it
+	kept := append([]float64(nil), got.LineString.FlatCoords()...)
+	keptHeaders := fmt.Sprint(got.Headers)
+	if _, err := igc.Read(strings.NewReader("AXYZother\nHFDTE010203\nB1011125230000N00130000WA0012300456\nB1011135230001N00130001WA0012400457\nB1011145230002N00130002WA0012500458\n")); err != nil {
+		return fmt.Errorf("igc.Read of a plain three-fix track: %v", err)
+	}
+	now := got.LineString.FlatCoords()
+	if len(now) != len(kept) || fmt.Sprint(got.Headers) != keptHeaders {
+		return fmt.Errorf("the track returned by igc.Read changed when another stream was read afterwards (%d ordinates, were %d)", len(now), len(kept))
+	}
+	for i := range kept {
+		if math.Float64bits(now[i]) != math.Float64bits(kept[i]) {
+			return fmt.Errorf("the track returned by igc.Read changed when another stream was read afterwards: ordinate %d is %v, was %v", i, now[i], kept[i])
+		}
+	}
 	out := got.LineString.FlatCoords()
 	if got.LineString.Layout() != geom.Layout(5) || len(out)%5 != 0 {
 		return fmt.Errorf("decoded layout %v with %d ordinates", got.LineString.Layout(), len(out))
